@@ -12,12 +12,12 @@ func init() {
 	register(&Profile{
 		Name:     "C04",
 		Property: "C04",
-		Gen:      genC04,
+		Gen:      func(g *Gen) *Plan { return swarm(g, genC04(g), 0.25, 0) },
 		Oracles:  []func(o *Outcome) []Violation{oracleC04, livenessOracle("C04")},
 		NonTrivial: func(o *Outcome) bool {
 			return o.Hist.Probes["hit-served"] > 0 && o.Hist.Probes["refetch-after-expiry"] > 0
 		},
-		Rule:         "seeded plans on 1-2 keys: lifetimes 1-6s (and one large), upstream Age absent or valid, 2-4 refetch epochs, requests placed by sleep operations at expiry-1s, the expiry second +-50ms, expiry+1s; half of the runs strictly sequential with the clock moving only between requests (exact oracle), half concurrent with clock actions inside requests (interval oracle); some refetch epochs are uncacheable or fail; a third of the runs have a slow simulated store that keeps the entry lock held while the clock moves. non-trivial = at least one hit and one refetch after expiry; distinct = distinct history hash",
+		Rule:         "seeded plans on 1-2 keys: lifetimes 1-6s (and one large), upstream Age absent or valid, 2-4 refetch epochs, requests placed by sleep operations at expiry-1s, the expiry second +-50ms, expiry+1s; half of the runs strictly sequential with the clock moving only between requests (exact oracle), half concurrent with clock actions inside requests (interval oracle); some refetch epochs are uncacheable or fail; a third of the runs have a slow simulated store that keeps the entry lock held while the clock moves. in a quarter of the plans a tenth of the clients disconnect at a scheduler-chosen step (fault client-disconnect). non-trivial = at least one hit and one refetch after expiry; distinct = distinct history hash",
 		ExpectProbes: []string{"hit-served", "refetch-after-expiry", "hit-in-expiry-second", "request-in-second-after-expiry", "age-checked"},
 	})
 }
